@@ -650,6 +650,12 @@ pub fn check_traits(_ctx: &Ctx, c: &TraitCase, acc: &mut Acc) -> Result<(), Fail
         0 => vec![],
         1 => vec![0],
         2 => vec![m.options.first().map(|o| o.0.saturating_sub(1)).unwrap_or(5), 65535],
+        _ if c.trunc % 3 == 0 => {
+            // a run of adjacent numbers below the last option
+            let top = m.options.last().map(|o| o.0).unwrap_or(40);
+            let lo = top.saturating_sub(4);
+            (lo..top).collect()
+        }
         _ => m.options.iter().map(|o| o.0.wrapping_add(1)).take(2).collect(),
     };
     for n in &cleared {
@@ -909,7 +915,16 @@ pub fn run(ctx: &Ctx, rep: &mut Report) {
                 proptest::collection::vec(proptest::collection::vec(any::<u8>(), 0..5), 0..3),
                 proptest::option::of("[/ab]{0,6}"),
             )
-                .prop_map(|(path, prior_segments, prior_path)| PathCase { path, prior_segments, prior_path })
+                .prop_map(|(path, prior_segments, prior_path)| {
+                    // sometimes the previous path reads (get_path) like the new
+                    // one is written, with other segments behind it
+                    let prior_path = match path.len() % 4 {
+                        0 => Some(format!("/{path}")),
+                        1 if path.starts_with('/') => Some(path[1..].to_string()),
+                        _ => prior_path,
+                    };
+                    PathCase { path, prior_segments, prior_path }
+                })
         },
         |ctx, c: &PathCase, acc| check_path(ctx, c, acc, false),
     );
